@@ -456,7 +456,11 @@ func (e *SpecEnv) call(x *SCall) Value {
 				return Value{T: card, Ty: intT}
 			case *types.Basic:
 				if u.Info()&types.IsString != 0 && e.exec != nil {
-					return Value{T: e.exec.strLen(v.T), Ty: intT}
+					l := e.exec.strLen(v.T)
+					if e.facts != nil && !strings.Contains(l.S, "!q") {
+						*e.facts = append(*e.facts, e.vc.ile(e.vc.idxLit(0), l))
+					}
+					return Value{T: l, Ty: intT}
 				}
 			}
 			e.fail("len of %s", v.Ty)
@@ -1009,7 +1013,7 @@ func (e *SpecEnv) applyAbstract(af *AbstractFunc, pkg *Pkg, args []SExpr) Value 
 	if def, ok := af.Defs[key]; ok {
 		return e.expandSpecFuncVals(def, pkg, vals)
 	}
-	if _, isI := vals[0].Ty.Underlying().(*types.Interface); !isI {
+	if _, isI := vals[0].Ty.Underlying().(*types.Interface); !isI && len(af.Defs) > 0 {
 		e.fail("abstract func %s has no definition for receiver type %s", af.Name, key)
 	}
 	var ts []Term
